@@ -24,6 +24,22 @@ Subset
                `Vec::new()`, tuples, `if` expressions, `S { a, b: e }` (→ tuple in field order), `*c.borrow()`, `*r`,
                `&e`, `&mut e` (references are transparent), calls of functions declared in the spec (abstract
                parameters such as `Op::operation`, or other translated functions).
+Control flow with exits (genpm; search loops of the matchers, C08/C09)
+  statements   `loop {..}` (fuel from the spec, shared numbering with `while`), `break;`, `return e;` inside `loop`/`while`/
+               `for … in it.by_ref()` (directly or under `if`/`match`), `match x { Some(v) => .., None => .. }` on an
+               `Option` as a statement, `if` statements whose branches leave the sequence (the continuation is then
+               translated once per branch), `for (i, c) in self.text.by_ref()` / `for … in &mut self.text` over an
+               iterator state declared as `Enumerate<T>` / `Iter<T>` in the spec (= the items not yet consumed [and the
+               counter]; structural recursion on the items, no fuel), `for (a, b) in xs.iter().zip(ys)`,
+               `let (a, b) = f(x);` for a translated `f`.
+  expressions  `Some(e)`, `None`, `x.is_some()`, `x.is_none()`, `u64::MAX`, `min(a, b)`/`max(a, b)` on unsigned integers,
+               `a[i..j] == b[..k]` (sub-slices as operands of `==`/`!=`), `xs.into_iter()`, `xs.rev()`, `xs.enumerate()`
+               (a slice read as its iterator), nested fields `self.a.b` (declared as `("a.b", type)` in `self_fields`),
+               method calls `self.a.f(x)` declared in `calls` with `self_args`, struct literals with a typed field list
+               (a field initialised with `self` is dropped).
+  helpers      `<fn>_loop<k>` / `<fn>_while<k>` : Nat → state → Res (state [× Option ret]) — the `Option` says whether the
+               *function* returned from inside the loop; a `loop` without `break` returns the value itself;
+               `<fn>_iter<k>` : List item → [Nat →] state → Res (state × iterator state [× Option ret]).
 Output style: the monad `RbV.Rs.Res` (`ok | panic | fuel`, RbV/Basic/RsSem.lean), `do` blocks of `let x ← …` / `let x := …`
 with Rust's mutation expressed by shadowing, `for` loops as `List.foldlM` of a named body function over `List.range'` /
 the slice / `zipIdx`, `while` loops as named recursive helpers on fuel.  Loop helpers are named `<fn>_for<k>`,
@@ -2737,6 +2753,45 @@ pub fn checksum(data: &[u8], modulus: u32) -> u32 {
     }
     acc
 }
+
+pub fn find_key(xs: &[u32], key: u32) -> Option<usize> {
+    let mut i = 0;
+    let mut seen = None;
+    loop {
+        if i >= xs.len() {
+            break;
+        }
+        if xs[i] == key {
+            return Some(i);
+        }
+        match seen {
+            Some(s) => {
+                if s > xs[i] {
+                    seen = Some(xs[i]);
+                }
+            }
+            None => {
+                seen = Some(xs[i]);
+            }
+        }
+        i += 1;
+    }
+    if seen.is_some() {
+        return None;
+    }
+    None
+}
+
+impl Iterator for Finder {
+    fn next(&mut self) -> Option<usize> {
+        for (i, c) in self.text.by_ref() {
+            if *c == self.key {
+                return Some(i);
+            }
+        }
+        None
+    }
+}
 """
 
 SELFTEST_UNIT = dict(
@@ -2749,6 +2804,12 @@ SELFTEST_UNIT = dict(
              ret="Vec<u64>", fuel=["x + 1"]),
         dict(name="checksum", lean="checksum", header="pub fn checksum(data: &[u8], modulus: u32) -> u32",
              params=[("data", "&[u8]"), ("modulus", "u32")], ret="u32"),
+        # genpm: `loop`, `break`, `return` inside a loop, `match` on `Option`, `for … in it.by_ref()`
+        dict(name="find_key", lean="findKey", header="pub fn find_key(xs: &[u32], key: u32) -> Option<usize>",
+             params=[("xs", "&[u32]"), ("key", "u32")], ret="Option<usize>", locals={"i": "usize", "seen": "Option<u32>"},
+             fuel=["xs.length + 1"]),
+        dict(name="Finder::next", lean="finderNext", header="fn next(&mut self) -> Option<usize>",
+             self_fields=[("key", "u32"), ("text", "Enumerate<u32>")], params=[], ret="Option<usize>"),
     ])
 
 # (statement text placed in a function `fn f(v: &[u8], n: usize) -> usize { … }`, substring expected in the refusal)
@@ -2796,7 +2857,10 @@ def selftest(with_lean):
             ok = False
         checks = ["#eval findFirst [5, 7, 7, 9] 7   -- ok 1", "#eval findFirst [] 7   -- ok 0",
                   "#eval squares 17   -- ok [0, 1, 4, …, 225, 0, 33]", "#eval digits 9075   -- ok [5, 7, 0, 9]",
-                  "#eval checksum [1, 2, 3] 1000003", "#eval checksum [1, 2, 3] 0   -- panic (assert!)"]
+                  "#eval checksum [1, 2, 3] 1000003", "#eval checksum [1, 2, 3] 0   -- panic (assert!)",
+                  "#eval findKey [5, 7, 9] 7   -- ok (some 1)", "#eval findKey [5, 7] 1   -- ok none",
+                  "#eval finderNext 7 ([5, 7, 7], 0)   -- ok (([7], 2), some 1)",
+                  "#eval finderNext 7 ([5, 6], 3)   -- ok (([], 5), none)"]
         lean_text = text.replace("end RbV.Gen.SrcSelfTest", "\n".join(checks) + "\nend RbV.Gen.SrcSelfTest")
         if with_lean:
             lf = os.path.join(tmp, "SelfTest.lean")
@@ -2806,7 +2870,9 @@ def selftest(with_lean):
             p = subprocess.run(["lake", "env", "lean", lf], cwd=lean_dir, stdout=subprocess.PIPE, stderr=subprocess.STDOUT,
                                text=True, timeout=600)
             print(p.stdout.strip())
-            want = ["RbV.Rs.Res.ok 1", "RbV.Rs.Res.ok 0", "225, 0, 33]", "RbV.Rs.Res.ok [5, 7, 0, 9]", "RbV.Rs.Res.panic"]
+            want = ["RbV.Rs.Res.ok 1", "RbV.Rs.Res.ok 0", "225, 0, 33]", "RbV.Rs.Res.ok [5, 7, 0, 9]", "RbV.Rs.Res.panic",
+                    "RbV.Rs.Res.ok (some 1)", "RbV.Rs.Res.ok none", "RbV.Rs.Res.ok (([7], 2), some 1)",
+                    "RbV.Rs.Res.ok (([], 5), none)"]
             if p.returncode != 0 or any(w not in p.stdout for w in want):
                 print("selftest: the generated Lean does not compile or evaluates differently")
                 ok = False
